@@ -159,6 +159,10 @@ static Exec run_inproc(const std::vector<int>& prefix, int only_thread = -1)
   }
   for (auto& th : ths) th.join();
   S.active = false;
+#ifdef BK_MBOX
+  // the registry must never hand a sandbox that is being / has been destroyed to the backend
+  if (only_thread < 0 || only_thread == 0) g_obs[0].push_back("end:queries-to-destroyed-sandboxes=" + std::to_string(SB::dead_queries()));
+#endif
   Exec x;
   x.points = S.points;
   for (int t = 0; t < g_nthreads; t++) x.obs[t] = g_obs[t];
